@@ -371,7 +371,7 @@ func (g *gen) htmlBlock() string {
 		if last != "" {
 			as = append(as, last)
 		}
-		attrs := strings.Join(as, g.pick(" ", "  ", "\n "))
+		attrs := strings.Join(as, g.pick(" ", " ", "  ", "\n ", "\t", "\f", "\r\n"))
 		tag := g.tagFor(attrs)
 		if tag == "script" || tag == "iframe" {
 			return "<" + tag + " " + attrs + "></" + tag + ">"
